@@ -175,7 +175,7 @@ def standin(tier, seed):
             fail("expected exactly one Set-Cookie header, got %r" % (sc,), name=name, value=value, attrs=attrs)
             continue
         jar, got_attrs = parse_set_cookie(sc[0])
-        want_value = value.decode("latin1") if isinstance(value, bytes) else value
+        want_value = value.decode("utf-8") if isinstance(value, bytes) else value       # (bytes values are documented to be UTF-8 text)
         if jar != {name: want_value}:
             fail("read back %r through parse_cookie, set %r=%r (header %r)" % (jar, name, want_value, sc[0]), name=name, value=value)
         exp = expected_attrs(attrs)
